@@ -110,6 +110,27 @@ def run(ctx):
                                "implementation_vs_model": {"impl_only": a_only[:10], "model_only": m_only[:10]}, "other_drivers_or_working_directories": drv,
                                "world": wid, "files": files,
                                "what": "excluded files are not inert under this configuration"})
+    # repeated runs on a module of 48 independent packages whose only violations sit in files that the configuration excludes: a
+    # pass that sees another configuration than the one given (a racy initialisation) prints diagnostics from excluded files
+    import stressgen
+    sd = lib.scratch_dir()
+    sroot = os.path.join(sd, "m")
+    stressgen.write(sroot, stressgen.excluded_stress(48))
+    junk = ",".join("zz_no_such_entry_%04d" % i for i in range(3000))
+    stress_runs = 0
+    for i in range(16 if ctx.tier != "thorough" else 80):
+        fl = [] if i % 2 == 0 else ["--config.exclude-paths=" + junk + ",testdata"]
+        r = lib.run_binary(ctx, sroot, flags=fl, timeout=600)
+        stress_runs += 1
+        if r["diags"] or r["crashed"]:
+            found = True
+            rep.violation({"property": "C14", "kind": "stress", "run": i, "flags": ["(default configuration)"] if not fl else ["--config.exclude-paths=<3000 entries that match nothing>,testdata"],
+                           "diagnostics_in_excluded_files": [[x["file"], x["line"], x["code"]] for x in r["diags"]][:8], "crashed": r["crashed"], "stderr_tail": r["stderr"][-400:],
+                           "module": "checks/stressgen.excluded_stress(48)",
+                           "what": "a diagnostic lies in a file that the configuration excludes (schedule-dependent: the module's packages are analysed by concurrent passes)"})
+            break
+    shutil.rmtree(sd, ignore_errors=True)
+    rep.cov["stress_runs"] = stress_runs
     lib.obligation_gate(rep, ctx, "C14", found)
     rep.cov["evaluations"] = evaluations
     rep.cov["distinct_nontrivial"] = len(nontrivial)
@@ -125,7 +146,11 @@ def run(ctx):
 
 
 def replay(ctx, d):
-    import l1
+    import l1, json
+    if d.get("kind") == "stress":
+        print(json.dumps(d, indent=1)[:4000])
+        print("(schedule-dependent: re-run `checks/check.sh C14 quick`; the module is regenerated by checks/stressgen.excluded_stress)")
+        return 0
     d = dict(d)
     d["kind"] = "world"
     return l1.replay(ctx, d)
